@@ -77,6 +77,15 @@ Definition set_cap (step : nat) (t : option tensor) (f : file) : file :=
   {| f_writing := f_writing f; f_hs := f_hs f; f_dt := f_dt f; f_tin := f_tin f; f_tout := f_tout f;
      f_name := f_name f; f_desc := f_desc f;
      f_init := f_init f; f_mpos := f_mpos f; f_caps := set_slot step t (f_caps f) |}.
+(* the name / description setters of a file object in write mode: the attribute is rewritten, nothing else *)
+Definition set_name (n : S) (f : file) : file :=
+  {| f_writing := f_writing f; f_hs := f_hs f; f_dt := f_dt f; f_tin := f_tin f; f_tout := f_tout f;
+     f_name := n; f_desc := f_desc f;
+     f_init := f_init f; f_mpos := f_mpos f; f_caps := f_caps f |}.
+Definition set_desc (n : S) (f : file) : file :=
+  {| f_writing := f_writing f; f_hs := f_hs f; f_dt := f_dt f; f_tin := f_tin f; f_tout := f_tout f;
+     f_name := f_name f; f_desc := n;
+     f_init := f_init f; f_mpos := f_mpos f; f_caps := f_caps f |}.
 Definition close (f : file) : file :=
   {| f_writing := false; f_hs := f_hs f; f_dt := f_dt f; f_tin := f_tin f; f_tout := f_tout f;
      f_name := f_name f; f_desc := f_desc f;
@@ -89,13 +98,16 @@ Fixpoint set_all (setter : nat -> option tensor -> file -> file) (k : nat) (ts :
   end.
 
 (* the writer as a list of operations (C17 enumerates its prefixes) *)
-Inductive wop := WInit (t : option tensor) | WMpo (k : nat) (t : tensor) | WCap (k : nat) (t : tensor) | WClose.
+Inductive wop := WInit (t : option tensor) | WMpo (k : nat) (t : tensor) | WCap (k : nat) (t : tensor) | WClose
+                | WName (n : S) | WDesc (n : S).
 Definition wstep (f : file) (o : wop) : file :=
   match o with
   | WInit t => set_initial t f
   | WMpo k t => set_mpo k (Some t) f
   | WCap k t => set_cap k (Some t) f
   | WClose => close f
+  | WName n => set_name n f
+  | WDesc n => set_desc n f
   end.
 Fixpoint number_from {A} (k : nat) (l : list A) : list (nat * A) :=
   match l with [] => [] | x :: t => (k, x) :: number_from (Datatypes.S k) t end.
